@@ -201,7 +201,8 @@ def run(c):
                 else:
                     c.report("presented figures do not re-add under the currency rule: %s (%s)" % bad[0],
                              {"document": r["doc"], "clause": bad[0][0]}, finding_id=fid)
-    # ---- derived documents: RemoveIncludedTaxes re-derives prices and fixed amounts with two more decimals and
+    # ---- derived documents: RemoveIncludedTaxes re-derives prices and line-level fixed amounts with two more decimals,
+    # document-level fixed discounts / charges at the precision they are presented with (repair C17-rit-not-a-fixpoint), and
     # recalculates; what it hands back is a document calculated under the currency rule like any other
     rdocs = []
     tries = 0
